@@ -622,6 +622,18 @@ pub fn eval_c20(sc: &Scenario, h: &History, _signed: &Signeds, out: &mut Outcome
     let mut bodies: Vec<(usize, Vec<u8>, csl::TransactionBody, csl::TransactionBuilder)> = vec![];
     for b in &h.built {
         bodies.push((b.op, tx_bytes_of(b), b.body.clone(), b.builder.clone()));
+        // the certificates the builder balances are the ones the history managed to set (a refused
+        // whole-collection setter must leave the builder as it was)
+        if let Ok(v) = TxView::parse(&tx_bytes_of(b)) {
+            let mut emitted: Vec<Vec<u8>> = v.certs().unwrap_or_default().iter().map(|n| v.span(n).to_vec()).collect();
+            let mut want = b.expected_certs.clone();
+            emitted.sort();
+            want.sort();
+            out.count("c20.certificate_lists_compared", 1);
+            if emitted != want {
+                out.violate("C20.builder_certificates", "builder_balances_other_certificates_than_were_set", format!("op {}: the body carries {} certificate(s), the history's successful calls set {}", b.op, emitted.len(), want.len()));
+            }
+        }
     }
     // cert/withdrawal/proposal-only sessions: force a body out of the final builder state
     if bodies.is_empty() {
